@@ -119,9 +119,8 @@ impl<P: SizedPayload> St<P> {
             }
             2 => {
                 let (a, e) = track(|| Arc::<P>::from(Box::new(P::make(v))));
-                if e.allocs.len() != if P::ZST { 1 } else { 2 } || e.frees.len() != if P::ZST { 0 } else { 1 } {
-                    viol::report(&["C06", "C05"], "F.from-box-effect", format!("Arc::from(Box): {} allocations and {} frees during the call", e.allocs.len(), e.frees.len()));
-                }
+                // (the Box itself may be elided by the optimiser for payloads without drop glue: only
+                // the surviving block is checked, in adopt())
                 self.adopt(H::Arc(a), &e, Some(v), "Arc::from(Box<T>)");
             }
             3 => {
@@ -852,7 +851,7 @@ impl<P: SizedPayload> St<P> {
                     if clones != 1 {
                         viol::report(PX, "X.clone-count", format!("unwrap_or_clone on a shared value ran Clone::clone {} times", clones));
                     }
-                    if !P::ZST && (p.id == id || p.val != self.allocs[ai].val || !p.ok) {
+                    if !P::ZST && ((id != rt::tok::NONE && p.id == id) || p.val != self.allocs[ai].val || !p.ok) {
                         viol::report(PX, "X.clone-value", format!("unwrap_or_clone on a shared value returned {:?}; expected a fresh clone of val {}", p, self.allocs[ai].val));
                     }
                     self.released(ai, Kind::Arc, false);
